@@ -132,7 +132,7 @@ func vfServeScenario(rec *vfRec, sc map[string]any, sockPath string) {
 
 	pc, err := net.ListenUnixgram("unixgram", &net.UnixAddr{Name: sockPath, Net: "unixgram"})
 	if err != nil {
-		panic(err)
+		panic(fmt.Sprintf("vf: %v", err))
 	}
 	defer pc.Close()
 	go func() {
@@ -151,7 +151,7 @@ func vfServeScenario(rec *vfRec, sc map[string]any, sockPath string) {
 	}()
 	notifier, err := sdnotify.Open(sockPath)
 	if err != nil {
-		panic(err)
+		panic(fmt.Sprintf("vf: %v", err))
 	}
 	defer notifier.Close()
 
